@@ -54,6 +54,12 @@ class OpGen(object):
     def op(self, fn=None, unit=None, exc_rate=0.15, maxn=None):
         rng = self.rng
         fn = fn or rng.choice(FNS)
+        if fn == 'read_exception_status':
+            # the only request without any field: keep request PDUs pairwise distinct within a
+            # scenario (the scripted peer tells transactions apart by content)
+            if getattr(self, '_used_res', False):
+                fn = 'read_holding_registers'
+            self._used_res = True
         a = self.next_addr()
         unit = unit if unit is not None else 1
         reply = {}
@@ -205,11 +211,33 @@ def leftover_input(res, call):
             first = (seq, name)
             break
     if first is None:
-        return False
+        # the call never got a request out: judge the newest link as of the invocation
+        names = [name for (seq, t, kind, name, data) in res.io if name.startswith('cli-link') and seq < call['invoke_seq']]
+        if not names:
+            return False
+        first = (call['invoke_seq'], names[-1])
     link = int(first[1][len('cli-link'):])
     sent = sum(n for (sq, l, n) in res.peer.sent_log if l == link and sq < first[0])
     got = sum(len(d) for (sq, t, kind, name, d) in res.io if kind == 'recv' and name == first[1] and sq < first[0])
-    return sent > got
+    if sent > got:
+        return True
+    # replies can still be in flight (or not even produced yet when the client is one reply behind):
+    # an earlier transaction on this same link whose script put bytes on it that its own call did
+    # not have to consume leaves the link in that state
+    extra = {'stale_first', 'dup', 'late', 'garbage', 'partial', 'wrong_tid', 'wrong_unit', 'wrong_fc'}
+    ops = getattr(res, 'scn_callers', None)
+    if ops is None:
+        return False
+    for other in res.calls:
+        if other is call or other['caller'] != call['caller'] or other['index'] >= call['index']:
+            continue
+        used = [name for (seq, t, kind, name, data) in res.io
+                if kind == 'send' and t == task and other['invoke_seq'] < seq < other.get('return_seq', 1 << 60)]
+        if first[1] in used:
+            acts = set(a['act'] for a in (ops[other['caller']][other['index']].get('script') or []))
+            if acts & extra:
+                return True
+    return False
 
 
 def base_outcome(scn, res):
